@@ -378,6 +378,44 @@ def r4_statistic(chk: Check) -> None:
         chk.violation("C07.R4", ils, "no unconditional True", "some links are always counted as selected", ils.loc(consts[0]))
 
 
+def r4b_filter_input(chk: Check) -> None:
+    chk.rule("C07.R4b", "SIBLINGS-AGREE(what the filters are shown): the enumerator that offers operations (get_all_operations) and the one that counts them for the 'selected / total' line (_measure_statistic) hand _should_skip the same kind of definition - both the resolved operation, or both the raw entry; filters that read the definition (--include-by / --exclude-by expressions, custom functions, deprecated) otherwise decide differently for the count and for the run", floor=2)
+    P = chk.project
+    from ..dataflow import propagate
+
+    kinds: dict[str, tuple[FuncInfo, str, ast.AST]] = {}
+    for ref in (f"{OAS}:BaseOpenAPISchema.get_all_operations", f"{OAS}:BaseOpenAPISchema._measure_statistic"):
+        fn = P.func(ref)
+        g = cfg_of(fn)
+        aliases = set(defined_by(fn, "$v = self._should_skip")) | {"self._should_skip"}
+        res_aliases = set(defined_by(fn, "$v = self._resolve_operation")) | {"self._resolve_operation"}
+        for c in body_calls(fn):
+            if dotted(c.func) in aliases and len(c.args) >= 3:
+                arg = c.args[2]
+                texts: set[str] = set()
+                if isinstance(arg, ast.Name):
+                    states = propagate(g, arg.id, [g.entry], ["<loop>"], lambda v: unparse(v, 200))
+                    for nid in g.stmt_nodes_containing(c):
+                        texts |= states.get(nid, set())
+                else:
+                    texts = {unparse(arg, 200)}
+                resolved = any(any(t.startswith(a + "(") for a in res_aliases) for t in texts)
+                kinds[fn.name] = (fn, "resolved" if resolved else "raw", c)
+    if len(kinds) < 2:
+        chk.undecided("C07.R4b", OAS, "the two enumerators", f"_should_skip calls found in {sorted(kinds)} only", OAS)
+        return
+    ref_fn, ref_kind, _ = kinds["get_all_operations"]
+    st_fn, st_kind, st_call = kinds["_measure_statistic"]
+    chk.ok("C07.R4b", ref_fn, f"get_all_operations filters on the {ref_kind} definition", "reference: this is what is offered", ref_fn.loc())
+    construct = "_measure_statistic shows the filters the same definition as get_all_operations"
+    if st_kind == ref_kind:
+        chk.ok("C07.R4b", st_fn, construct, st_kind, st_fn.loc(st_call))
+    else:
+        chk.violation("C07.R4b", st_fn, construct,
+                      f"the count is taken on the {st_kind} entry while operations are offered after filtering the {ref_kind} one: with a filter that reads the definition through a `$ref` (e.g. --include-by on a referenced response / body) the CLI prints `3 selected / 3 total` and tests 1 operation, or shows a negative `Skipped`",
+                      st_fn.loc(st_call))
+
+
 # --------------------------------------------------------------------------------------------- R5
 STEMS = ("path", "method", "name", "tag", "operation_id")
 
@@ -579,4 +617,4 @@ def rfwd_forwarding(chk: Check) -> None:
 
 
 def rules(tier: str) -> list:  # type: ignore[type-arg]
-    return [r1_enumerators, r1b_should_skip, r1c_filterset, r2_links, r3_entry_points, r4_statistic, r5_cli_plumbing, r6_filter_ownership, r7_documented_methods, rfwd_forwarding]
+    return [r1_enumerators, r1b_should_skip, r1c_filterset, r2_links, r3_entry_points, r4_statistic, r4b_filter_input, r5_cli_plumbing, r6_filter_ownership, r7_documented_methods, rfwd_forwarding]
